@@ -265,7 +265,7 @@ func TestDenseCatalogue(t *testing.T) {
 			}
 			pool = append(pool, it)
 		}
-		n := rapid.IntRange(3, 10).Draw(t, "nitems")
+		n := gen.Range(t, "nitems", 3, 10)
 		var uses []catalog.Use
 		for k := 0; k < n; k++ {
 			it := pool[gen.Uniform(t, "item", len(pool))]
@@ -619,7 +619,7 @@ func mutateProp(t *rapid.T) {
 			return
 		}
 		m := &mutator{t: t, file: af}
-		n := rapid.IntRange(1, 4).Draw(t, "nmut")
+		n := gen.Range(t, "nmut", 1, 4)
 		var muts []string
 		for k := 0; k < n; k++ {
 			if name := m.mutate(); name != "" {
